@@ -191,8 +191,8 @@ theorem rt : codec.RtAtEnd := by
       rw [length_beBytes] at hend
       have e1 := readU_at h (hkl _ hk)
       have r8 : isReadable 8 d (p + 4) = false := isReadable_false (by omega)
-      have r4 : isReadable 4 d (p + 4) = false := isReadable_false (by omega)
-      simp only [dec, bind, Except.bind, e1, if_pos hk, r8, r4, Bool.false_eq_true, if_false, length_beBytes]
+      simp only [dec, bind, Except.bind, e1, if_pos hk, r8, Bool.false_eq_true, if_false, length_beBytes, Option.isSome_none,
+        Bool.false_and]
   | some s =>
     cases bm with
     | none => simp at hshape
@@ -220,13 +220,13 @@ theorem rt : codec.RtAtEnd := by
       | none =>
         have r4 : isReadable 4 d (p + 4 + 4 + 4) = false := isReadable_false (by simp at hend; omega)
         simp only [dec, bind, Except.bind, e1, if_pos hk, r8, if_true, e2, e3, if_pos hb, r4, Bool.false_eq_true, if_false,
-          Option.isSome_none]
+          Option.isSome_none, Option.isSome_some, Bool.true_and, Bool.and_false]
       | some n =>
         simp only [Psd.optT, Psd.optFits] at h hf
         have r4 : isReadable 4 d (p + 4 + 4 + 4) = true := isReadable_of_at h (by simp [length_beBytes])
         obtain ⟨e4, _⟩ := readU_step h hf.2
         simp only [dec, bind, Except.bind, e1, if_pos hk, r8, if_true, e2, e3, if_pos hb, r4, Codec.optItem, e4,
-          Option.isSome_some]
+          Option.isSome_some, Bool.true_and, Bool.and_true]
 
 theorem count : codec.Count := encP_eq
 
